@@ -20,9 +20,11 @@ theorem accepted_iff (tol : Rat) (inp : Inputs) (lfc : List Nat) (p : Int) :
 private theorem rej {tol inp lfc} (h : ∀ p, ¬ (Accepts tol inp p ∧ inp.mapFilesFound = inp.chroms.length ∧ ∀ k ∈ lfc, k = 4)) :
     ∀ p, pipeline tol inp lfc ≠ .ok p := fun p hp => h p ((pipeline_ok_iff tol inp lfc p).mp hp)
 
+/-- a header whose sample count is not an integer is refused -/
 theorem rejects_noninteger_samples (tol inp lfc) (h : inp.nSamples = none) : ∀ p, pipeline tol inp lfc ≠ .ok p :=
   rej (fun p ⟨⟨n, _, hn, _⟩, _⟩ => by rw [h] at hn; cases hn)
 
+/-- a sample count below 1 is refused -/
 theorem rejects_samples_lt_one (tol inp lfc) (n : Int) (h : inp.nSamples = some n) (hlt : n < 1) :
     ∀ p, pipeline tol inp lfc ≠ .ok p :=
   rej (fun p ⟨⟨n', _, hn, _, h1, _⟩, _⟩ => by rw [h] at hn; cases hn; omega)
@@ -37,18 +39,22 @@ theorem rejects_bad_generation_line (tol inp lfc) (h : ¬ GensOK inp.pops.length
     ∀ p, pipeline tol inp lfc ≠ .ok p :=
   rej (fun p ⟨⟨_, _, _, _, _, hg, _⟩, _⟩ => h hg)
 
+/-- a requested chromosome outside `1..22, X` is refused -/
 theorem rejects_unknown_chromosome (tol inp lfc) (c : String) (hc : c ∈ inp.chroms) (hv : c ∉ validChroms) :
     ∀ p, pipeline tol inp lfc ≠ .ok p :=
   rej (fun p ⟨⟨_, _, _, _, _, _, _, hall, _⟩, _⟩ => hv (hall c hc))
 
+/-- a requested chromosome without a genetic map file in `--mapdir` is refused -/
 theorem rejects_missing_map (tol inp lfc) (h : inp.mapFilesFound ≠ inp.chroms.length) :
     ∀ p, pipeline tol inp lfc ≠ .ok p :=
   rej (fun p ⟨_, hm, _⟩ => h hm)
 
+/-- a genetic map line that does not have exactly four fields is refused -/
 theorem rejects_malformed_map_line (tol inp lfc) (k : Nat) (hk : k ∈ lfc) (h4 : k ≠ 4) :
     ∀ p, pipeline tol inp lfc ≠ .ok p :=
   rej (fun p ⟨_, _, hall⟩ => h4 (hall k hk))
 
+/-- a `--popsize` of zero or below is refused -/
 theorem rejects_nonpositive_popsize (tol inp lfc) (ps : Int) (h : inp.popsize = some ps) (hle : ps ≤ 0) :
     ∀ p, pipeline tol inp lfc ≠ .ok p :=
   rej (fun p ⟨⟨_, ps', _, _, _, _, _, _, _, hp, hpos, _⟩, _⟩ => by rw [h] at hp; cases hp; omega)
